@@ -235,7 +235,10 @@ int main(int argc, char** argv) {
     std::ios::sync_with_stdio(false);
     long budget = (argc > 1) ? atol(argv[1]) : 20; if (budget <= 0) budget = 20;
     signal(SIGPROF, on_prof); signal(SIGTERM, on_term);
-    signal(SIGSEGV, on_fatal); signal(SIGFPE, on_fatal); signal(SIGBUS, on_fatal); signal(SIGILL, on_fatal); signal(SIGABRT, on_fatal);
+    // fatal signals run on an alternate stack: an unbounded recursion (stack overflow) must still flush the completed answers
+    static char altstack[1 << 16]; stack_t ss; ss.ss_sp = altstack; ss.ss_flags = 0; ss.ss_size = sizeof altstack; sigaltstack(&ss, 0);
+    struct sigaction sa; sa.sa_handler = on_fatal; sa.sa_flags = SA_ONSTACK; sigemptyset(&sa.sa_mask);
+    sigaction(SIGSEGV, &sa, 0); sigaction(SIGBUS, &sa, 0); sigaction(SIGFPE, &sa, 0); sigaction(SIGILL, &sa, 0); sigaction(SIGABRT, &sa, 0);
     std::string line;
     mpz_t p, x; mpz_init(p); mpz_init(x); mpz_init(g_p2);
     while (std::getline(std::cin, line)) {
